@@ -177,6 +177,55 @@ def parseUdpObs : List String → Option UdpObs
     | _ => none
   | _ => none
 
+/-! `s5 <eof|err> ds <k> <bytes>*k cut <n> ch <k> <size>*k`
+    observation: `wire <hex> pk <m> <hex>*m stop <len|data|toolarge>` -/
+
+structure S5Line where
+  tail : Tail
+  ds : List Bytes
+  cut : Nat
+  sizes : List Nat
+
+def parseS5Line : List String → Option S5Line
+  | "s5" :: tl :: "ds" :: k :: ts => do
+    let tail ← tailOfString tl
+    let k ← k.toNat?
+    let (ds, ts) ← parseBytesN k ts
+    match ts with
+    | "cut" :: c :: "ch" :: n :: ts => do
+      let cut ← c.toNat?
+      let n ← n.toNat?
+      let (sz, _) ← takeN n ts
+      let sz ← natList sz
+      pure ⟨tail, ds, cut, sz⟩
+    | _ => none
+  | _ => none
+
+def s5StopStr : S5Stop → String
+  | .len => "len" | .data => "data" | .tooLarge => "toolarge" | .fuel => "fuel"
+
+def s5StopOf : String → Option S5Stop
+  | "len" => some .len | "data" => some .data | "toolarge" => some .tooLarge | _ => none
+
+def s5Wire (l : S5Line) : Bytes := ((l.ds.map sendPacket).flatten).flatten
+
+def s5ObsStr (wire : Bytes) (o : S5Obs) : String :=
+  let pk := o.pk.foldl (fun acc p => acc ++ " " ++ hexOfBytes p) ""
+  s!"wire {hexOfBytes wire} pk {o.pk.length}{pk} stop {s5StopStr o.stop}"
+
+def parseS5Obs : List String → Option (Bytes × S5Obs)
+  | "wire" :: w :: "pk" :: m :: ts => do
+    let w ← bytesOfHex w
+    let m ← m.toNat?
+    let (pk, ts) ← takeN m ts
+    let pk ← pk.mapM bytesOfHex
+    match ts with
+    | ["stop", st] => do
+      let st ← s5StopOf st
+      pure (w, ⟨pk, st⟩)
+    | _ => none
+  | _ => none
+
 def runModel (ts : List String) : String :=
   match ts with
   | "tcp" :: _ =>
@@ -186,6 +235,13 @@ def runModel (ts : List String) : String :=
   | "udp" :: _ =>
     match parseUdp ts with
     | some l => udpObsStr (udpObs (udpRun .repaired l.case (udpComplete l.case l.sched)))
+    | none => "bad-case"
+  | "s5" :: _ =>
+    match parseS5Line ts with
+    | some l =>
+      let wire := s5Wire l
+      let stream := wire.take l.cut
+      s5ObsStr wire (recvAll (stream.length + 1) ⟨chunkBy l.sizes stream, l.tail⟩)
     | none => "bad-case"
   | _ => "bad-case"
 
@@ -203,6 +259,13 @@ def runHolds (caseToks obsToks : List String) : String :=
     | some l =>
       match parseUdpObs obsToks with
       | some o => boolStr (holdsUdp l.spec o)
+      | none => "false"
+    | none => "bad-case"
+  | "s5" :: _ =>
+    match parseS5Line caseToks with
+    | some l =>
+      match parseS5Obs obsToks with
+      | some (w, o) => boolStr (holdsS5 l.ds l.cut w o)
       | none => "false"
     | none => "bad-case"
   | _ => "bad-case"
